@@ -1,9 +1,99 @@
 import AioModel.Wire
-/-! Driver commands of property C16 (stub until the model exists). -/
+import AioModel.C16
+import AioModel.C16Ref
+/-!
+Driver commands of property C16.
+
+    run <allowIp> <now> <op>…     the jar model (`Aio.C16.step`)
+    ref <allowIp> <now> <op>…     the RFC 6265 reference store (`Aio.C16.Ref`)
+
+ops (fields `|`, cookies `;`, cookie fields `,`; strings as `.`-separated code points):
+
+    S|<host or none>|<url path>|name,value,domain,path,secure,maxage,expires;…
+    T|<dt>      F|<host>|<path>|<secure>      C      D|<domain>      L      X (dump state)
+
+maxage / expires: `-` absent, `bad`, `i<int>`.  The reply has one segment per F and X op,
+separated by spaces; a segment lists its items separated by `,` in the model's own order
+(the harness sorts both sides).
+-/
 namespace Aio.Driver.C16
-open Aio Aio.Wire
+open Aio Aio.Wire Aio.C16
+
+def parseInt (s : String) : Option Int :=
+  if s.startsWith "-" then (s.drop 1).toNat?.map (fun n => -(n : Int)) else s.toNat?.map (fun n => (n : Int))
+
+def parseAtt (s : String) : Option Att :=
+  if s == "-" then some .absent
+  else if s == "bad" then some .bad
+  else if s.startsWith "i" then (parseInt (s.drop 1).toString).map .val
+  else none
+
+def parseRaw (s : String) : Option Raw :=
+  match s.splitOn "," with
+  | [n, v, d, p, sec, ma, ex] => do
+    pure ⟨← parseStr n, ← parseStr v, ← parseStr d, ← parseStr p, parseBool sec, ← parseAtt ma, ← parseAtt ex⟩
+  | _ => none
+
+def parseHost (s : String) : Option (Option Str) :=
+  if s == "none" then some none else (parseStr s).map some
+
+def parseOp (s : String) : Option (Op ⊕ Unit) :=
+  match s.splitOn "|" with
+  | ["S", h, p, cs] => do
+    let cs ← if cs == "" then some [] else (cs.splitOn ";").mapM parseRaw
+    pure (.inl (.set (← parseHost h) (← parseStr p) cs))
+  | ["T", dt] => do pure (.inl (.tick (← dt.toNat?)))
+  | ["F", h, p, sec] => do pure (.inl (.query (← parseStr h) (← parseStr p) (parseBool sec)))
+  | ["C"] => some (.inl .clear)
+  | ["D", d] => do pure (.inl (.clearDomain (← parseStr d)))
+  | ["L"] => some (.inl .saveLoad)
+  | ["X"] => some (.inr ())
+  | _ => none
+
+def showPairs (l : List (Str × Str)) : String :=
+  "[" ++ ",".intercalate (l.map (fun nv => showStr nv.1 ++ "=" ++ showStr nv.2)) ++ "]"
+
+def showKey (k : Key) : String := showStr k.1 ++ "|" ++ showStr k.2.1 ++ "|" ++ showStr k.2.2
+
+def showInt (i : Int) : String := toString i
+
+def dump (j : Jar) : String :=
+  "{cookies=" ++ ",".intercalate (j.cookies.map (fun e =>
+      showKey e.key ++ "|" ++ showStr e.c.value ++ "|" ++ showStr e.c.domain ++ "|" ++ showStr e.c.path ++ "|" ++ showBool e.c.secure))
+  ++ ";ho=" ++ ",".intercalate (j.hostOnly.map (fun dn => showStr dn.1 ++ "|" ++ showStr dn.2))
+  ++ ";exp=" ++ ",".intercalate (j.expirations.map (fun kv => showKey kv.1 ++ "|" ++ showInt kv.2))
+  ++ ";heap=" ++ ",".intercalate (j.heap.map (fun e => showInt e.1 ++ "|" ++ showKey e.2))
+  ++ ";keys=" ++ "/".intercalate (j.keys.map (fun dp => showStr dp.1 ++ "|" ++ showStr dp.2)) ++ "}"
+
+def runOps (allowIp : Bool) : World → List (Op ⊕ Unit) → List String → List String
+  | _, [], acc => acc.reverse
+  | w, .inr () :: ops, acc => runOps allowIp w ops (dump w.jar :: acc)
+  | w, .inl op :: ops, acc =>
+    let (w', out) := step allowIp w op
+    match op with
+    | .query .. => runOps allowIp w' ops (showPairs out :: acc)
+    | _ => runOps allowIp w' ops acc
+
+def refOps (allowIp : Bool) : Int → List Ref.RCookie → List (Op ⊕ Unit) → List String → List String
+  | _, _, [], acc => acc.reverse
+  | now, s, .inr () :: ops, acc => refOps allowIp now s ops acc
+  | now, s, .inl op :: ops, acc =>
+    let r := Ref.step allowIp now s op
+    match op with
+    | .query h p sec =>
+      refOps allowIp r.1 r.2 ops
+        (showPairs ((Ref.select allowIp r.1 r.2 h p sec).map (fun c => (c.name, c.value))) :: acc)
+    | _ => refOps allowIp r.1 r.2 ops acc
 
 def handle : List String → String
+  | "run" :: a :: now :: ops =>
+    match parseInt now, ops.mapM parseOp with
+    | some now, some ops => " ".intercalate (runOps (parseBool a) { now := now } ops [])
+    | _, _ => "bad-op"
+  | "ref" :: a :: now :: ops =>
+    match parseInt now, ops.mapM parseOp with
+    | some now, some ops => " ".intercalate (refOps (parseBool a) now [] ops [])
+    | _, _ => "bad-op"
   | _ => "bad-op"
 
 end Aio.Driver.C16
